@@ -93,7 +93,7 @@ def plan(tier, ctx):
                      meta=m1('undocumented sizes in [88, 1024)'))
         for pg in (16384, 65536):
             d = [mx, 'C19_PAGE=%dL' % pg]
-            jobs += mmap_pair('e1.init_layout_mmap.page%d' % pg, ctxs, 'h_init_layout_mmap', unwind=2, timeout=400, defines=d,
+            jobs += mmap_pair('e1.init_layout_mmap.page%d' % pg, ctxs, 'h_init_layout_mmap', unwind=2, timeout=900, defines=d,
                               meta=m1(sz + '; page %d' % pg))
             jobs += mmap_pair('e1.mmap_round_covers_request.page%d' % pg, ctxs, 'h_mmap_round_covers_request', unwind=2, timeout=200,
                               defines=['C19_MAX_SIZE=%d' % (1 << 24), 'C19_PAGE=%dL' % pg], meta=m1('size in [1, 2^24]; page %d' % pg))
